@@ -352,6 +352,17 @@ def handle (op : String) (args : List String) : Option String :=
         pure (RootNode.dir t, t)
       | _ => none
     pure ("wf=" ++ boolStr t.wf ++ " " ++ showWalk (walk root rn))
+  | "hfs", [fs, nodeDirs, forkDir, jobDirs, root, tree] => do
+    let fs ← parseFs fs
+    let nodeDirs ← pathList nodeDirs
+    let forkDir ← pathOfHex forkDir
+    let jobDirs ← pathList jobDirs
+    let root ← pathOfHex root
+    let tk := tokens tree
+    let (t, rest) ← parseFsTree (tk.length + 1) tk
+    if !rest.isEmpty then none
+    let chain := guardChain nodeDirs forkDir jobDirs
+    pure ("wf=" ++ boolStr t.wf ++ " hfs=" ++ boolStr (hfsB fs chain root t) ++ " refused=" ++ boolStr (refusedBy fs chain))
   | "refused", [fs, chain] => do
     let fs ← parseFs fs
     let chain ← pathList chain
